@@ -982,6 +982,10 @@ def cases_c05(ctx, boost):
                         for alt in OTHER_TYPES:
                             if alt[0] != it[0]:
                                 add(item_replace(seed, pth, lambda x, alt=alt: alt), "other type")
+    # each bounded member pushed across its limit (shared with C12)
+    for c in cases_c12(ctx, boost):
+        c.tag = "limit: " + c.tag
+        out.append(c)
     return out
 
 
